@@ -388,8 +388,9 @@ Definition forward_op (n : node) (x' : data) : result :=
       end
   end.
 
-(* Node.train, after check_xy (n already carries the teacher that check_xy registered, or a stale one left by an earlier
-   failed train: _base.train prefers node._teacher over the Y array).  The teacher is unregistered only on success. *)
+(* Node.train, after check_xy (n already carries the teacher that check_xy registered: _base.train prefers node._teacher
+   over the Y array).  Since f5028fe everything after check_xy is inside  try: ... finally: self._unregister_teacher() :
+   whatever the outcome, no teacher is left on the node. *)
 Definition train_op (n : node) (x' : data) (y' : ycheck) : result :=
   match seq2 x' with
   | None => Irregular
@@ -402,11 +403,11 @@ Definition train_op (n : node) (x' : data) (y' : ycheck) : result :=
           | Some (ty, m) =>
               if negb (t =? ty) then Irregular
               else match (if initialized n then ROk n else initialize n [f] (Some m)) with
-                   | RErr e => Err PInit e n
+                   | RErr e => Err PInit e (set_teacher n None)
                    | ROk n1 =>
                        if (match input_dim n1 with Some d => lnat_eqb d [f] | None => false end)
                           && (match output_dim n1 with Some o => o =? m | None => false end)
-                       then Ok (bump_params (bump_state n1) false) (Some (t, width n1))
+                       then Ok (set_teacher (bump_params (bump_state n1) false) None) (Some (t, width n1))
                        else Irregular
                    end
           | None => Irregular                                     (* no target / irregular layouts *)
@@ -418,11 +419,11 @@ Definition train_op (n : node) (x' : data) (y' : ycheck) : result :=
               (* _init_vectors_placeholders: y from the data if given, else output_dim, else the teacher's output_dim *)
               let yf := match ydata with Some (_, m) => Some m | None => td end in
               match (if initialized n then ROk n else initialize n [f] yf) with
-              | RErr e => Err PInit e n
+              | RErr e => Err PInit e (set_teacher n None)
               | ROk n1 =>
                   if negb (match input_dim n1 with Some d => lnat_eqb d [f] | None => false end) then Irregular
                   else match td with
-                       | None => Err PCore RuntimeError n1         (* the teacher cannot be initialised: "Impossible to get teacher" *)
+                       | None => Err PCore RuntimeError (set_teacher n1 None)   (* the teacher cannot be initialised: "Impossible to get teacher" *)
                        | Some tdim =>
                            if width n1 =? tdim
                            then Ok (set_teacher (bump_params (bump_state n1) false) None) (Some (t, width n1))
@@ -569,6 +570,9 @@ Definition prefix_delay_state_shape (delay dim steps : nat) : list nat :=
   if steps <=? delay then (if steps =? 0 then [1; dim] else [dim]) else [1; dim].
 Definition prefix_sklearn_state_shape (targets rows : nat) : list nat :=
   if targets =? 1 then [rows] else [rows; targets].
+(* Before f5028fe Node.train unregistered the teacher only after a successful run: a train call failing after check_xy
+   (teacher that cannot be initialised, failed initialisation, numpy error) left the registered teacher on the node *)
+Definition prefix_after_failed_train (n : node) (td : option nat) : node := set_teacher n (Some td).
 (* Before ad5a298 the last branch of check_n_sequences (arrays with more than len(dim)+2 axes) only called check_vector *)
 Definition prefix_check_too_many_dims (x : data) (ats : bool) : res data :=
   match check_vector x ats with RErr e => RErr e | ROk sh' => ROk (DArr true sh') end.
